@@ -461,6 +461,78 @@ theorem text_mode_ifc (s : Screen) (attr : Nat) (st : Stmt) (ht : s.textMode = t
     step s attr st = .error PcbV.Gen.E.ifc := by
   cases st <;> simp [step, ht, Viewport.ifc, Stmt.isGraphics] at hg ⊢
 
+/-! ### statements that fail -/
+
+/-- **failed_op_keeps_view**: over the whole statement alphabet (drawing statements, VIEW with or without attribute
+    values, VIEW off, page switch, mode switch), a statement that raises an error leaves the state exactly as it
+    was - the viewport, the active page, the page the viewport points at and every pixel of every page.  For VIEW
+    this is the order of `view_`: the coordinate and the 0..255 attribute checks precede `graph_view.unset()`. -/
+theorem failed_op_keeps_view (s : Screen) (attr : Nat) (op : Op) (h : (exec s attr op).2 ≠ none) :
+    (exec s attr op).1 = s := by
+  cases op with
+  | stmt st =>
+    simp only [exec] at h ⊢
+    cases hs : step s attr st with
+    | ok s' => rw [hs] at h; exact absurd rfl h
+    | error e => rfl
+  | viewAttr x0 y0 x1 y1 a f b =>
+    simp only [exec] at h ⊢
+    unfold viewExec at h ⊢
+    split
+    · rfl
+    · split
+      · rfl
+      · split
+        · rfl
+        · split
+          · rfl
+          · split
+            · rfl
+            · split
+              · rfl
+              · rename_i h1 h2 h3 h4 h5 h6
+                simp only [h1, h2, h3, h4, h5, h6, if_false] at h
+                exact absurd rfl h
+
+/-- Hence in every history a failing statement can be dropped without changing the state reached - in particular
+    the viewport in force for the drawing statements that follow it. -/
+theorem failed_op_is_skipped (s : Screen) (attr : Nat) (op : Op) (rest : List Op)
+    (h : (exec s attr op).2 ≠ none) : execAll s attr (op :: rest) = execAll s attr rest := by
+  show execAll (exec s attr op).1 attr rest = execAll s attr rest
+  rw [failed_op_keeps_view s attr op h]
+
+/-- an accepted VIEW with attribute values is the VIEW statement of `step` (fill / border given or not) -/
+theorem view_attr_ok_is_step (s : Screen) (attr : Nat) (x0 y0 x1 y1 : Int) (a : Bool) (f b : Option Int)
+    (h : (viewExec s attr x0 y0 x1 y1 a f b).2 = none) :
+    step s attr (.view x0 y0 x1 y1 a f.isSome b.isSome) = .ok (viewExec s attr x0 y0 x1 y1 a f b).1 := by
+  by_cases ht : s.textMode = true
+  · simp [viewExec, ht] at h
+  by_cases hx : (0 ≤ x0 ∧ x0 ≤ s.view.W - 1 ∧ 0 ≤ x1 ∧ x1 ≤ s.view.W - 1)
+  case neg => simp [viewExec, ht, hx] at h
+  by_cases hy : (0 ≤ y0 ∧ y0 ≤ s.view.H - 1 ∧ 0 ≤ y1 ∧ y1 ≤ s.view.H - 1)
+  case neg => simp [viewExec, ht, hx, hy] at h
+  by_cases he : (x0 = x1 ∨ y0 = y1)
+  · simp [viewExec, ht, hx, hy, he] at h
+  by_cases hf : attrOk f = true
+  case neg => simp [viewExec, ht, hx, hy, he, hf] at h
+  by_cases hb : attrOk b = true
+  case neg => simp [viewExec, ht, hx, hy, he, hf, hb] at h
+  simp only [step, viewStmt, viewExec, ht, hx, hy, he, hf, hb, not_true_eq_false, if_false,
+    Bool.false_eq_true]
+  cases f <;> cases b <;>
+    simp [drawTo, applyOps, List.foldl_append, setPg_setPg, setPg_self, setPg]
+
+/-- The seeded reordering (attribute checks inside `_set_view`, after `graph_view.unset()`): a VIEW whose border
+    attribute is 300 raises Illegal function call but leaves the full-screen viewport in force instead of the one
+    that was set; the code's order keeps it. -/
+theorem lazy_view_attr_check_drops_view :
+    ∃ (s : Screen) (attr : Nat), Inv s ∧
+      (viewExecLazy s attr 120 60 180 90 false none (some 300)).2 = some PcbV.Gen.E.ifc ∧
+      (viewExecLazy s attr 120 60 180 90 false none (some 300)).1.view ≠ s.view ∧
+      (viewExec s attr 120 60 180 90 false none (some 300)) = (s, some PcbV.Gen.E.ifc) := by
+  refine ⟨⟨false, 2, 0, 0, (View.full 320 200).set 100 50 200 100 false, fun _ _ _ => 0⟩, 3, ⟨rfl, by decide⟩,
+    rfl, by decide, rfl⟩
+
 /-! ### non-vacuity: the hypotheses are satisfiable and the primitives do write cells -/
 
 example : (View.full 320 200).wf := by decide
